@@ -12,8 +12,9 @@ per-tool scratch map that is handed to the next call dirty after a REJECTED call
 aliases when the next call — started before the first one's response has been written — encodes into it
 (C16-m13: overlapping calls). The harness therefore runs (a) every call op as exactly one invocation of
 the wrapper (no separate crash probe any more), so that the histories of calls on one tool are what the
-ops say, and (b) groups of OVERLAPPING calls (`ovl=1..n`: call i is held after its handler chain has
-returned, call i+1 is started, … then the held calls are released in reverse order). This file is the
+ops say, and (b) groups of OVERLAPPING calls (`ovl=1..n`: call i is held — `hold=a`: after its handler chain has
+returned, the result not yet serialised; `hold=h`: inside its handler, before the handler looks at its
+typed input —, call i+1 is started, … then the held calls are released in reverse order). This file is the
 model's side of that:
 
 * histories — `next_call`, `calls_leave_no_trace`, `call_record_history_free`,
@@ -181,6 +182,15 @@ theorem responses_are_own {R : Type} (res : Nat → R) :
       · cases heq
       · cases heq
         exact responses_are_own res rest f hf hs' p hp
+
+/-- **held_inputs_are_own.** The same statement read for the INPUT side (harness: `hold=h`, a call held inside
+its handler — the wrapper has validated and decoded the arguments, the handler holds its typed input and
+looks at it only after the overlapping calls have run): `handle id a` = the wrapper of request `id` hands
+the typed input `a` to the handler, `respond id` = the handler looks at its input. Whatever ran in
+between, it sees the input decoded from its own validated arguments. -/
+theorem held_inputs_are_own {A : Type} (decoded : Nat → A) (s : List (Sect A))
+    (h : ∀ id a, Sect.handle id a ∈ s → a = decoded id) : ∀ p ∈ runSched [] s, p.2 = decoded p.1 :=
+  responses_are_own decoded s [] (fun _ hp => by simp at hp) h
 
 /-- the schedule the harness drives for a group of overlapping calls: every request is handled (and held),
 then the held results are written in reverse order -/
